@@ -66,6 +66,11 @@ def prove_forward(src_root, kind, ex: Explorer):
             return
         child_labels = [c.attrs['connection'].label for c in t.children]
         others = {k: v for k, v in t.sent.items() if k not in child_labels}
+        # SearchManager listens on the same bus and answers all three carriers (C14.answer.*): a search request put back on the
+        # bus by the forwarding side is answered a second time
+        again = [e for e in t.emitted if isinstance(e, Obj) and e.cls.qual == "MessageReceivedEvent"]
+        ctx.prove(f'C14.forward.{kind}.no-redispatch', not again,
+                  'the forwarding handler re-dispatched a received message on the event bus: the answering side sees the search twice')
         if own:
             ctx.prove(f'C14.own.forward.{kind}', not t.sent and not t.server_sent,
                       f'a search that originates from the logged-in user was passed on to {sorted(t.sent)}')
@@ -218,6 +223,12 @@ ANSWERERS = {
 }
 
 
+def _same_value(ctx, a, b):
+    if isinstance(a, Sym) and isinstance(b, Sym) and a.k == b.k:
+        return ctx.valid(a.t == b.t)
+    return not isinstance(a, (Sym, Obj)) and not isinstance(b, (Sym, Obj)) and type(a) is type(b) and a == b
+
+
 def prove_answerers(src_root, kind, ex: Explorer):
     spec = ANSWERERS[kind]
 
@@ -244,13 +255,18 @@ def prove_answerers(src_root, kind, ex: Explorer):
             calls.append(a[1:])
             return A.SimpleAwaitable(it2.aio, 'reply', lambda it3: None, yields=False)
         it.hooks[f'{SM}:SearchManager._query_shares_and_reply'] = c_reply
+        before = dict(msg.attrs)
         run(it, it.getattr(w['mgr'], spec['handler']), msg, Opaque('conn'))
+        # the message object is shared with the forwarding side (same event, same bus): it must leave this handler as it came
+        same = all(k in msg.attrs and (msg.attrs[k] is v or _same_value(ctx, msg.attrs[k], v)) for k, v in before.items())
+        ctx.prove(f'C14.answer.{kind}.message-untouched', same,
+                  'the answering handler changed the received message, which the forwarding handler passes on to the children')
         if own:
             ctx.prove(f'C14.own.answer.{kind}', not calls, 'a search that originates from the logged-in user was answered')
         elif not code_ok:
             ctx.prove('C14.code-check.answer', not calls)
         else:
-            ok = len(calls) == 1 and calls[0][0] is msg.attrs['ticket'] and calls[0][1] is asker and calls[0][2] is msg.attrs['query']
+            ok = len(calls) == 1 and calls[0][0] is before['ticket'] and calls[0][1] is asker and calls[0][2] is before['query']
             ctx.prove(f'C14.answer.{kind}', ok, 'the shares are queried once for (ticket, asker, query) of the incoming request')
     ex.run(path, f'answer-{kind}')
 
